@@ -894,6 +894,14 @@ by constructor calls -/
 example : C20.WInv (newColl (newColl ({ next := 0, colls := [] } : World ℕ) 0) 0) :=
   C20.winv_newColl _ (C20.winv_newColl _ C20.winv_empty 0) 0
 
+/-- non-vacuity: a concrete history (two adds, `c0 + c0`, pop by name) on the executable model -/
+example :
+    let w := run (newColl (newColl ({ next := 0, colls := [] } : World ℕ) 0) 0)
+      [.addObj 0 ⟨1, 10, 0⟩, .addObj 0 ⟨2, 20, 0⟩, .plusColl 0 0, .popName 0 10]
+    view w = [(0, [⟨2, 20, 0⟩]), (0, []), (0, [⟨1, 10, 0⟩, ⟨2, 20, 0⟩, ⟨1, 10, 0⟩, ⟨2, 20, 0⟩])] ∧
+    w.colls.map nameList = [[20], [], [10, 20]] := by
+  decide
+
 /-- **`+` is pure**: `c_j + c_k` appends one new collection to the world and changes nothing else
 (every existing collection keeps its objects, its index and its identities); the new collection
 holds the objects of `c_j` followed by those of `c_k`, has new identities and a coherent index. -/
